@@ -161,3 +161,36 @@ def digest_of(*parts):
     for p in parts:
         h.update(json.dumps(p, sort_keys=True, default=_canon).encode())
     return h.hexdigest()[:16]
+
+
+def import_seeder_threaded():
+    """mapproxy.seed.seeder picks thread- or process-based workers from sys.platform at import time.
+    Import it once under sys.platform='darwin' (every dependency imported beforehand under the real
+    platform), so that the repository's own thread flavour (an existing seam) is what the simulator runs."""
+    import sys
+    mod = sys.modules.get('mapproxy.seed.seeder')
+    if mod is not None:
+        import threading
+        if mod.proc_class is not threading.Thread:
+            raise RuntimeError('mapproxy.seed.seeder was imported before import_seeder_threaded()')
+        return mod
+    import queue  # noqa
+    import threading  # noqa
+    import multiprocessing  # noqa
+    import mapproxy.config  # noqa
+    import mapproxy.grid  # noqa
+    import mapproxy.source  # noqa
+    import mapproxy.util.lock  # noqa
+    import mapproxy.seed.util  # noqa
+    import mapproxy.seed.cachelock  # noqa
+    import mapproxy.cache.base  # noqa
+    import mapproxy.cache.tile  # noqa
+    real = sys.platform
+    sys.platform = 'darwin'
+    try:
+        import mapproxy.seed.seeder as seeder
+    finally:
+        sys.platform = real
+    import mapproxy.cache.base as cb
+    assert seeder.proc_class is threading.Thread and cb.REMOVE_ON_UNLOCK is True
+    return seeder
